@@ -16,6 +16,7 @@ import (
 	"strings"
 	"sync"
 
+	"github.com/caddyserver/caddy/v2"
 	"github.com/caddyserver/caddy/v2/modules/caddyhttp"
 
 	"verif/harness/internal/core"
@@ -135,6 +136,94 @@ func runHTTP(line string, f []string) core.Outcome {
 	if strings.Contains(outAll, fileContent) {
 		o.Failures = append(o.Failures, core.Failure{Class: "file-content-leaked-via-request-value",
 			What: fmt.Sprintf("response contains the content of %s: body=%q X-Out=%q (X-In=%q q=%q path=%q)", secretFilePath(), body, hout, xin, q, path)})
+	}
+	return o
+}
+
+// ---------------------------------------------------------------- vars / vars_regexp matchers
+
+var matcherKeys = []string{
+	"{http.request.header.X-In}", "{http.request.uri.query.q}", "v", "{http.vars.v}", "{zz.unk}", "w",
+	"{env." + secretEnv + "}", "{http.request.header.x-in}", "{{http.vars.v}}", "{v", "v}",
+}
+
+func genMatcher(rng *core.Rand, emit func(string)) {
+	av := attackerValues()
+	secret := rng.Pick([]string{"S3CR3T-ENV-9942", "S3CR3T-ENV-9942", "plain", ""})
+	mvals := []string{"{env." + secretEnv + "}", "plain", "", "{http.request.header.X-In}", "{zz.unk}", "S3CR3T-ENV-9942", "x{env." + secretEnv + "}y", "\\{env." + secretEnv + "}"}
+	emit(fmt.Sprintf("httpm %s %s %s %s %s %s", core.Hex(rng.Pick(matcherKeys)), core.Hex(rng.Pick(mvals)),
+		core.Hex(rng.Pick(av)), core.Hex(rng.Pick(av)), core.Hex(rng.Pick(av)), core.Hex(secret)))
+}
+
+func runMatcher(line string, f []string) core.Outcome {
+	var v [6]string
+	for i := 0; i < 6; i++ {
+		s, err := core.UnHex(f[i+1])
+		if err != nil {
+			return core.Outcome{Impl: "bad-op"}
+		}
+		v[i] = s
+	}
+	key, mval, varV, xin, q, secret := v[0], v[1], v[2], v[3], v[4], v[5]
+	os.Setenv(secretEnv, secret)
+	defer os.Unsetenv(secretEnv)
+
+	req := httptest.NewRequest("GET", "http://example.test/", nil)
+	req.URL.RawQuery = "q=" + url.QueryEscape(q)
+	req.Header["X-In"] = []string{xin}
+	vars := map[string]any{"v": varV} // as the vars handler would have stored a request-derived value
+	ctx := context.WithValue(req.Context(), caddyhttp.VarsCtxKey, vars)
+	req = req.WithContext(ctx)
+	repl := caddyhttp.NewTestReplacer(req)
+
+	// the raw (request-controlled) value the matchers are about, obtained independently
+	var raw string
+	if strings.HasPrefix(key, "{") && strings.HasSuffix(key, "}") && strings.Count(key, "{") == 1 {
+		val, _ := repl.Get(strings.Trim(key, "{}"))
+		if s, ok := val.(string); ok {
+			raw = s
+		} else if val != nil {
+			raw = fmt.Sprint(val)
+		}
+	} else if s, ok := vars[key].(string); ok {
+		raw = s
+	}
+
+	m1, err := caddyhttp.VarsMatcher{key: []string{mval}}.MatchWithError(req)
+	if err != nil {
+		return core.Outcome{Impl: "err:matcher"}
+	}
+	re := &caddyhttp.MatchRegexp{Pattern: "(?s)^(.*)$", Name: "n"}
+	mre := caddyhttp.MatchVarsRE{key: re}
+	if err := mre.Provision(caddy.Context{}); err != nil {
+		return core.Outcome{Impl: "err:provision"}
+	}
+	m2, err := mre.MatchWithError(req)
+	if err != nil || !m2 {
+		return core.Outcome{Impl: "err:matcher-re"}
+	}
+	capV, _ := repl.Get("http.regexp.n.1")
+	captured, _ := capV.(string)
+
+	o := core.Outcome{Tags: []string{"op:httpm"}}
+	b := "0"
+	if m1 {
+		b = "1"
+		o.Tags = append(o.Tags, "vars-matched")
+	}
+	o.Impl = "ok " + b + " " + core.Hex(captured)
+	if strings.ContainsAny(raw, "{}") {
+		o.Tags = append(o.Tags, "matcher-value-has-braces")
+	}
+	// oracle (the property itself): the request-controlled value is compared / captured VERBATIM
+	want := raw == repl.ReplaceAll(mval, "")
+	if m1 != want {
+		o.Failures = append(o.Failures, core.Failure{Class: "vars-matcher-rescans-value",
+			What: fmt.Sprintf("vars matcher key=%q value=%q: actual value %q compared as if it were re-expanded (got match=%v, verbatim comparison gives %v)", key, mval, raw, m1, want)})
+	}
+	if captured != raw {
+		o.Failures = append(o.Failures, core.Failure{Class: "vars-regexp-rescans-value",
+			What: fmt.Sprintf("vars_regexp key=%q: the actual value %q reaches the regular expression as %q — it was scanned for placeholders again", key, raw, captured)})
 	}
 	return o
 }
